@@ -250,6 +250,9 @@ def decl_module(d, ops_wanted):
                 conv = "<TT as core::convert::TryFrom<Inner>>::try_from(%s).ok()"
             elif "From" in info.traits:
                 conv = "Some(<TT as core::convert::From<Inner>>::from(%s))"
+            if d.family() in ("int", "str"):
+                # the JSON text itself, against the model's writer (Sem/Json)
+                arms.append('"ser_text" => guard(|| { let x = <Inner as Arg>::parse(arg); match %s { Some(t) => serde_json::to_string(&t).map(|s| s.show()).unwrap_or("ser_err".to_string()), None => "rejected".to_string() } }),' % (mko % "x"))
             for opn, mkx in (("ser", mko), ("ser_conv", conv)):
                 if mkx is None:
                     continue
